@@ -15,4 +15,5 @@ func runC10(r *fw.Run, p *fw.Program) {
 	c10BitsRules(r, p)
 	c10OptsRules(r, p)
 	c10JSONRules(r, p)
+	c10AliasRules(r, p)
 }
